@@ -346,6 +346,12 @@ Proof.
     replace (p - s + s) with p by lia; rewrite C1, C3, Z.leb_refl; reflexivity.
 Qed.
 
+Lemma greatest_int a b : is_integer a = true -> is_integer b = true -> greatest_ty a b = TInt I64.
+Proof.
+  destruct a as [| |ka| | |], b as [| |kb| | |]; intros Ha Hb; try discriminate; unfold greatest_ty;
+  try (destruct ka); try (destruct kb); reflexivity.
+Qed.
+
 (* ---------------- the main induction ---------------- *)
 Section Sound.
 Variable s : schema.
@@ -507,17 +513,17 @@ Proof.
   - (* GREATEST *)
     ev2 e1 e2. destruct (IHe1 _ eq_refl) as [N1 _]. destruct (IHe2 _ eq_refl) as [N2 _]. cbn [nullable type_of well_typed]. split.
     + intros Hn. tt. specialize (N1 ltac:(assumption)). specialize (N2 ltac:(assumption)). destruct va; try discriminate; destruct vb; try discriminate. apply fit_typed in EV. tauto.
-    + intros W. tt. unfold greatest_ty.
+    + intros W. tt.
       assert (Ia : is_integer (type_of s e1) = true) by assumption. assert (Ib : is_integer (type_of s e2) = true) by assumption.
-      rewrite Ia, Ib. cbn [andb].
+      rewrite (greatest_int _ _ Ia Ib).
       destruct va; try discriminate; try (injection EV as <-; reflexivity); destruct vb; try discriminate; try (injection EV as <-; reflexivity).
       apply fit_typed in EV. tauto.
   - (* LEAST *)
     ev2 e1 e2. destruct (IHe1 _ eq_refl) as [N1 _]. destruct (IHe2 _ eq_refl) as [N2 _]. cbn [nullable type_of well_typed]. split.
     + intros Hn. tt. specialize (N1 ltac:(assumption)). specialize (N2 ltac:(assumption)). destruct va; try discriminate; destruct vb; try discriminate. apply fit_typed in EV. tauto.
-    + intros W. tt. unfold greatest_ty.
+    + intros W. tt.
       assert (Ia : is_integer (type_of s e1) = true) by assumption. assert (Ib : is_integer (type_of s e2) = true) by assumption.
-      rewrite Ia, Ib. cbn [andb].
+      rewrite (greatest_int _ _ Ia Ib).
       destruct va; try discriminate; try (injection EV as <-; reflexivity); destruct vb; try discriminate; try (injection EV as <-; reflexivity).
       apply fit_typed in EV. tauto.
   - (* CAST *)
